@@ -674,6 +674,14 @@ pub fn gen_script(rng: &mut Rng, programs: Vec<Cmd>, host: HostSel, sc: &ScriptC
         }
     }
 
+    if pending_flush && !dropped_all {
+        // the script ended on a drop whose consequences have not run yet
+        let a = Action::Event(Event::Noop);
+        apply_to_model(&mut m, &a);
+        steps.push(vec![a]);
+        m.settle(&none);
+    }
+
     // drain phase, faults off: end every stream, answer every one-shot
     let drain_from = steps.len();
     for _round in 0..200 {
